@@ -3,11 +3,11 @@
 patch="$1"; scale="${2:-0.5}"
 cd /repo || exit 2
 [ -n "$(git status --porcelain)" ] && { echo "/repo not clean"; exit 2; }
-git apply "$patch" || { echo "patch does not apply"; exit 2; }
+git apply "$patch" 2>/dev/null || git apply -3 "$patch" || { echo "patch does not apply"; git reset -q --hard HEAD; exit 2; }
 cd /verif
 for p in C12 C13 C14 C15 C20; do
   out=$(/venv/bin/python -m sim.run --property $p --tier quick --runs-scale $scale --evidence /tmp/evidence_pres_$p.json 2>&1)
   rc=$?
   echo "$p exit=$rc :: $(echo "$out" | grep "self-test W\|self-test note\|unknown-summary\|HARNESS\|^done" | tr '\n' '|' | cut -c1-500)"
 done
-git -C /repo checkout -- .
+git -C /repo reset -q --hard HEAD
